@@ -1,5 +1,6 @@
 //! verif-harness: drives the real rs-matter code for the model-based checks in /verif.
 mod c03;
+mod c03g;
 mod c04;
 mod c05;
 mod c09;
